@@ -24,13 +24,33 @@ the block.
 -/
 namespace CashewsVerif
 
+/-- How control leaves an `async with` block, i.e. what `__aexit__(exc_type, exc_value, exc_tb)` is called with.
+These are ALL the kinds there are: Python passes `(None, None, None)` when the body ran to its end and the
+propagating exception (with its traceback) otherwise, and every exception is a `BaseException`:
+* `ok`        — the body returned (or fell off its end);
+* `error`     — an `Exception` subclass propagates (`ValueError`, `LockedError`, …);
+* `base`      — a `BaseException` that is *not* an `Exception` propagates (`KeyboardInterrupt`, `SystemExit`,
+                `GeneratorExit`, a user-defined `BaseException` subclass);
+* `cancelled` — `asyncio.CancelledError` (a `BaseException` since 3.8) raised at the suspension point at which the
+                task was parked when `task.cancel()` / `wait_for` / `timeout()` / a failing `TaskGroup` sibling hit it.
+`__aexit__` decides with `if not exc_tb: commit() else: rollback()`: every kind but `ok` rolls back. -/
+inductive Leave where
+  | ok | error | base | cancelled
+  deriving DecidableEq, Repr
+
+/-- an exception (of whatever kind) is propagating: `exc_tb is not None` -/
+def Leave.raises : Leave → Bool
+  | .ok => false
+  | _ => true
+
 /-- what a task does: open a block (on a context object of its own or on the shared object `o`), leave
-it (normally or with an exception propagating), run a cache command, or call `rollback()` / `commit()` on
-the `Transaction` it got from `async with` -/
+it (normally or with an exception of some kind propagating), run a cache command, or call `rollback()` /
+`commit()` on the `Transaction` it got from `async with` — anywhere in the body, any number of times, with
+further commands after it -/
 inductive Ev where
   | enter (m : TxMode)
   | enterObj (o : Nat) (m : TxMode)
-  | exit (exc : Bool)
+  | exit (how : Leave)
   | cmd (op : Op)
   | rollback
   | commit
@@ -79,18 +99,18 @@ def step (c : Ctx) : Ev → Ctx × Out
       ({ c with st := TxSt.begin_ c.st.b m c.nextId c.st.timeout, inTx := true,
                 frames := .shared o :: c.frames, nextId := c.nextId + 1,
                 objs := setObj c.objs o { c.objs o with tx := true } }, .unit)
-  | .exit exc =>
+  | .exit how =>
     match c.frames with
     | [] => (c, .err)                                         -- no open block: not a program
     | .fresh true :: fr => ({ c with frames := fr }, .unit)   -- `if self._inner: self._inner -= 1; return`
     | .fresh false :: fr =>                                   -- `if not exc_tb: commit() else: rollback()` … `finally: close()`
-      ({ c with st := if exc then c.st.rollback else c.st.commit, inTx := false, frames := fr }, .unit)
+      ({ c with st := if how.raises then c.st.rollback else c.st.commit, inTx := false, frames := fr }, .unit)
     | .shared o :: fr =>
       if (c.objs o).inner ≠ 0 then                            -- `if self._inner: self._inner -= 1; return`
         ({ c with frames := fr, objs := setObj c.objs o { c.objs o with inner := (c.objs o).inner - 1 } }, .unit)
       else if !(c.objs o).tx then ({ c with frames := fr }, .unit)   -- `if not self._tx: return`
       else                                                    -- commit / rollback, `close()`: `self._tx = None; _transaction.reset(token)`
-        ({ c with st := if exc then c.st.rollback else c.st.commit, inTx := false, frames := fr,
+        ({ c with st := if how.raises then c.st.rollback else c.st.commit, inTx := false, frames := fr,
                   objs := setObj c.objs o { c.objs o with tx := false } }, .unit)
   | .cmd op =>
     if c.inTx then                                            -- `_get_backend`: `if tx: return tx.wrap(backend)`
